@@ -42,7 +42,10 @@ func (r *runner) lying(sec string, ep *EP, class string, build func(f lenForm) [
 	for _, f := range lenForms {
 		if f.claim >= 1<<28 {
 			if r.stopAt[ep.Name] {
-				r.c.Outcome(sec, "skipped: escalation stopped after a violation")
+				if !r.stopAt["noted|"+sec+ep.Name] {
+					r.stopAt["noted|"+sec+ep.Name] = true
+					r.c.SecNotExhaustive(sec, "claims of 2^28 and more are not sent to "+ep.Name+" after its allocation violation on a smaller claim")
+				}
 				continue
 			}
 		}
@@ -76,6 +79,45 @@ var oidShapes = []struct {
 	{"valid-127-bytes", append([]byte{0x2A}, make([]byte, 126)...)},
 	{"valid-128-bytes", append([]byte{0x2A}, make([]byte, 127)...)},
 	{"valid-300-bytes", append([]byte{0x2A}, make([]byte, 299)...)},
+}
+
+// primitive value shapes by universal tag (structure-aware replacement of a value, ancestors re-lengthed)
+func valueShapes(tag byte, old []byte) [][]byte {
+	switch tag {
+	case 0x02, 0x0A: // INTEGER, ENUMERATED
+		return [][]byte{{}, {0x00}, {0x01}, {0xFF}, {0x80}, {0x7F, 0xFF, 0xFF, 0xFF, 0xFF, 0xFF, 0xFF, 0xFF}, {0x80, 0, 0, 0, 0, 0, 0, 0}, {0x00, 0xFF, 0xFF, 0xFF, 0xFF, 0xFF, 0xFF, 0xFF, 0xFF},
+			{0x00, 0x00, 0x01}, {0xFF, 0xFF}, bytesOf(0x7F, 1024), append([]byte{0x00}, old...), {0x7F, 0xFF, 0xFF, 0xFF}, {0x00, 0x80, 0x00, 0x00, 0x00}}
+	case 0x03: // BIT STRING
+		out := [][]byte{{}, {0x00}, {0x07}, {0x08, 0x00}, {0xFF, 0xFF}, {0x07, 0x80}, {0x00, 0x04}, {0x00, 0x04, 0x01}}
+		if len(old) > 1 {
+			out = append(out, append([]byte{0x07}, old[1:]...), old[1:], old[:len(old)-1], append([]byte{0x00, 0x02}, old[2:]...), append([]byte{0x00, 0x03}, old[2:]...))
+		}
+		return out
+	case 0x04: // OCTET STRING
+		out := [][]byte{{}, {0x00}, bytesOf(0xFF, 64)}
+		if len(old) > 1 {
+			out = append(out, old[:len(old)-1], append(append([]byte{}, old...), 0x00), old[1:])
+		}
+		return out
+	case 0x01: // BOOLEAN
+		return [][]byte{{}, {0x00}, {0x01}, {0xFF}, {0x00, 0x00}}
+	case 0x05: // NULL
+		return [][]byte{{0x00}, {0x05, 0x00}}
+	case 0x17: // UTCTime
+		return [][]byte{{}, []byte("Z"), []byte("0000000000Z"), []byte("000000000000Z"), []byte("991332250000Z"), []byte("250230000000Z"), []byte("2501010000Z"), []byte("250101000000+0100"), []byte("250101000000"), []byte("25010100000Z"), []byte("2501010000000Z"), bytesOf(0xFF, 13)}
+	case 0x18: // GeneralizedTime
+		return [][]byte{{}, []byte("Z"), []byte("00000000000000Z"), []byte("99991332250000Z"), []byte("20250101000000.5Z"), []byte("20250101000000"), []byte("2025010100Z"), []byte("20250101000000+0100"), bytesOf(0xFF, 15)}
+	case 0x0C, 0x13, 0x16, 0x14, 0x1E: // strings
+		return [][]byte{{}, {0xFF, 0xFE}, {0x00}, bytesOf('A', 300), {0xC3}, {0xD8, 0x00}, []byte("<<<"), []byte("\x00\x00\x00")}
+	case 0x06:
+		return nil // object identifiers have their own section
+	}
+	// application / context tags of the LDS (names, dates, numbers, images, key references)
+	n := len(old)
+	if n > 512 {
+		n = 512
+	}
+	return [][]byte{{}, {0x00}, bytesOf(0xFF, n), bytesOf('<', n), bytesOf('9', n), bytesOf(0x00, n), bytesOf('A', 300)}
 }
 
 func nestDefinite(tag byte, depth int, leaf []byte) []byte {
@@ -380,7 +422,8 @@ func (r *runner) grammarSeeds(co *corpusT) {
 	secI := "3d seeds: indefinite marker at every node"
 	secE := "3e seeds: end-of-contents at every position"
 	secO := "3f seeds: malformed OID in every OID slot / injected into every constructed node"
-	nSeeds, nNodes, nOids, nCons := 0, 0, 0, 0
+	secS := "3i seeds: typed value shapes and structural edits"
+	nSeeds, nNodes, nOids, nCons, nShapes := 0, 0, 0, 0, 0
 	for _, s := range co.seeds {
 		if !(strings.HasPrefix(s.Name, "reflds/") || strings.HasPrefix(s.Name, "refpki/") || strings.HasPrefix(s.Name, "session/")) || strings.HasSuffix(s.Name, "/bundle") || strings.HasSuffix(s.Name, "envelope") || strings.HasSuffix(s.Name, "signature") {
 			continue
@@ -394,10 +437,11 @@ func (r *runner) grammarSeeds(co *corpusT) {
 		for _, en := range s.EPs {
 			targets = append(targets, mustEP(en))
 		}
-		var pipes []*EP
+		var pipes, oidPipes []*EP
 		for _, en := range s.Pipe {
+			oidPipes = append(oidPipes, mustEP(en))
 			if strings.HasPrefix(en, "mobile.") {
-				continue
+				continue // 3 ms per call: only the OID cases go through the mobile facade
 			}
 			pipes = append(pipes, mustEP(en))
 		}
@@ -451,11 +495,49 @@ func (r *runner) grammarSeeds(co *corpusT) {
 				for _, sh := range oidShapes {
 					n.val = sh.b
 					in := encNodes(ts)
-					for _, ep := range append(append([]*EP{}, targets...), pipes...) {
+					for _, ep := range append(append([]*EP{}, targets...), oidPipes...) {
 						r.doClass(secO, ep, in, cl("oid-slot")+":"+sh.name)
 					}
 				}
 				n.val = old
+			}
+			// typed value shapes
+			if !n.cons && n.wrap == 0 {
+				if shapes := valueShapes(n.tag[len(n.tag)-1]|byte(0xC0*min(1, len(n.tag)-1)), n.val); shapes != nil {
+					old := n.val
+					for _, sh := range shapes {
+						n.val = sh
+						in := encNodes(ts)
+						for _, ep := range all {
+							r.doClass(secS, ep, in, cl(fmt.Sprintf("value-shape(tag%02x)", n.tag[0])))
+						}
+						nShapes++
+					}
+					n.val = old
+				}
+			}
+			if n.cons || n.wrap != 0 {
+				// structural edits: children removed, each child deleted, each child duplicated, adjacent children swapped
+				kids0 := n.kids
+				edit := func(nk []*bnode, what string) {
+					n.kids = nk
+					in := encNodes(ts)
+					n.kids = kids0
+					for _, ep := range all {
+						r.doClass(secS, ep, in, cl("structure("+what+")"))
+					}
+					nShapes++
+				}
+				edit(nil, "emptied")
+				for i := range kids0 {
+					edit(append(append([]*bnode{}, kids0[:i]...), kids0[i+1:]...), "child-deleted")
+					edit(append(append(append([]*bnode{}, kids0[:i+1]...), kids0[i]), kids0[i+1:]...), "child-duplicated")
+					if i+1 < len(kids0) {
+						sw := append([]*bnode{}, kids0...)
+						sw[i], sw[i+1] = sw[i+1], sw[i]
+						edit(sw, "children-swapped")
+					}
+				}
 			}
 			if n.cons || n.wrap != 0 {
 				nCons++
@@ -467,7 +549,11 @@ func (r *runner) grammarSeeds(co *corpusT) {
 						n.kids = nk
 						in := encNodes(ts)
 						n.kids = kids
-						for _, ep := range all {
+						oall := all
+						if small {
+							oall = append(append([]*EP{}, targets...), oidPipes...)
+						}
+						for _, ep := range oall {
 							r.doClass(secO, ep, in, cl("oid-injected")+":"+sh.name)
 						}
 					}
@@ -500,6 +586,8 @@ func (r *runner) grammarSeeds(co *corpusT) {
 	c.SecBound(secL, fmt.Sprintf("%d DER seeds, %d TLV nodes (also inside OCTET/BIT STRING wrappers): each node's length field x %d lying forms with consistent ancestors, smallest claim first", nSeeds, nNodes, len(lenForms)))
 	c.SecBound(secI, "same nodes: length replaced by 80 with and without end-of-contents (primitive nodes too), and by each truthful non-minimal form 81..84")
 	c.SecBound(secE, "00 00 as an element at every child index of every constructed node (lengths consistent) and inserted raw at every byte offset")
+	c.SecBound(secS, "every primitive node of the same seeds replaced by each extreme value of its type (INTEGER: empty, 0, 1, -1, -128, max/min int64, 2^64-1, non-minimal, 2^31-1, 2^31, 1024 bytes; BIT STRING: empty, unused-bits 7/8/FF, shortened, format byte changed; OCTET STRING; BOOLEAN; NULL; UTCTime / GeneralizedTime: 12 resp. 9 malformed or impossible dates; strings: empty, invalid UTF-8 / UTF-16, 300 characters); every constructed node emptied, each child deleted, duplicated, swapped with its neighbour; ancestors re-lengthed; fed to the constructor, String() and the onward pipelines")
+	_ = nShapes
 	c.SecBound(secO, fmt.Sprintf("%d OID slots x %d malformed/extreme OID shapes; the same shapes injected as first and last child of each of %d constructed nodes; fed to the file constructor, tlv String() and the onward pipelines", nOids, len(oidShapes), nCons))
 }
 
